@@ -220,11 +220,15 @@ func runC16(c *Ctx) {
 		lim = 1 << 24
 	}
 	names := map[string]bool{}
+	supported := map[int]bool{} // the values of the ten declared constants (0..9 at the pinned commit)
+	for l := 0; l < ref.NLang; l++ {
+		supported[int(Langs[l])] = true
+	}
 	for l := 0; l < ref.NLang; l++ {
 		var s string
 		p := call(func() { s = Langs[l].String() })
 		c.Eval(1)
-		if p != "" || s != ref.LangNames[l] || int(Langs[l]) != l {
+		if p != "" || s != ref.LangNames[l] {
 			c.Violate(fmt.Sprintf("string:%d", l), fmt.Sprintf("%s (value %d).String() = %q panic=%q, want %q", ref.LangNames[l], int(Langs[l]), s, p, ref.LangNames[l]),
 				map[string]interface{}{"kind": "string", "value": l})
 		}
@@ -257,7 +261,7 @@ func runC16(c *Ctx) {
 		}
 	}, func(r rng) {
 		for v := r.lo; ; v++ {
-			if v < 0 || v >= ref.NLang {
+			if !supported[v] {
 				var s string
 				p := call(func() { s = bip39.Language(v).String() })
 				want := fmt.Sprintf("Language(%d)", v)
